@@ -14,7 +14,6 @@ import (
 
 	"github.com/superfly/litefs"
 	lhttp "github.com/superfly/litefs/http"
-	"github.com/superfly/litefs/verif/mount"
 	"github.com/superfly/litefs/verif/node"
 	"github.com/superfly/litefs/verif/pager"
 	"github.com/superfly/litefs/verif/ref"
@@ -68,6 +67,7 @@ type CNode struct {
 	FC     *FaultClient
 	Opts   NodeOpts
 	Up     bool
+	DirOverride string // if set, the node lives there instead of Base/<name>
 
 	states map[string]*dbState
 }
@@ -87,9 +87,32 @@ func (cl *Cluster) AddNode(name string, o NodeOpts) (*CNode, error) {
 	return n, n.Start()
 }
 
+// AddNodeDir is AddNode on an existing data directory.
+func (cl *Cluster) AddNodeDir(name, dir string, o NodeOpts) (*CNode, error) {
+	n := &CNode{Name: name, cl: cl, Opts: o, states: map[string]*dbState{}, DirOverride: dir}
+	n.Leaser = cl.Svc.NewNodeLeaser(name)
+	n.FC = NewFaultClient()
+	cl.Nodes = append(cl.Nodes, n)
+	return n, n.Start()
+}
+
+// RemoveNode stops a node and forgets it.
+func (cl *Cluster) RemoveNode(n *CNode) {
+	n.Stop()
+	for i, x := range cl.Nodes {
+		if x == n {
+			cl.Nodes = append(cl.Nodes[:i], cl.Nodes[i+1:]...)
+			break
+		}
+	}
+}
+
 // Start (re)opens the node on its directory.
 func (n *CNode) Start() error {
 	dir := filepath.Join(n.cl.Base, n.Name)
+	if n.DirOverride != "" {
+		dir = n.DirOverride
+	}
 	n.Node = node.New(dir, node.Options{Candidate: n.Opts.Candidate, Leaser: n.Leaser, Client: n.FC, Compress: n.Opts.Compress, Configure: func(s *litefs.Store) {
 		s.DatabaseFilter = n.Opts.Filter
 		s.HaltAcquireTimeout = 2 * time.Second
@@ -379,107 +402,19 @@ func (n *CNode) Drop(db string) error {
 // ---- readers (the C01 oracle's eyes) -------------------------------------------------
 
 // ReadResult is what an application sees of one database on one node.
-type ReadResult struct {
-	Exists  bool
-	Pos     ref.Pos // DB.Pos() read under the read lock
-	PosFile string  // contents of the <db>-pos file read through the mount
-	Image   *ref.Image
-	WALMode bool
-	SHMPageN, SHMMxFrame uint32
-	HaveSHM bool
-}
+type ReadResult = node.ReadResult
 
 // Read takes the read lock SQLite would take on this node's copy of db, reads
 // the position, the file size and every page through the mount (and its
 // simulated cache), and releases the lock. ErrBusy means a writer holds the
 // lock right now.
-func (n *CNode) Read(db string) (res ReadResult, err error) { return n.ReadUnder(db, nil) }
+func (n *CNode) Read(db string) (ReadResult, error) { return n.ReadUnder(db, nil) }
 
 // ReadUnder is Read with a callback that runs while the read lock is still
 // held (no internal writer can be active then).
-func (n *CNode) ReadUnder(db string, under func()) (res ReadResult, err error) {
-	m := n.M
+func (n *CNode) ReadUnder(db string, under func()) (ReadResult, error) {
 	n.cl.nextOwner++
-	owner := n.cl.nextOwner
-	f, e := m.Open(owner, db)
-	if e != nil {
-		if mount.Errno(e) == syscall.ENOENT {
-			res.Pos = n.Pos(db)
-			return res, nil
-		}
-		return res, fmt.Errorf("open %s: %w", db, e)
-	}
-	defer f.Close()
-	res.Exists = true
-	// SHARED lock on the database file (PENDING, SHARED range, release PENDING).
-	const pending, sharedFirst, sharedSize = 0x40000000, 0x40000002, 510
-	if e := f.SetLk(mount.RdLck, pending, pending); e != nil {
-		return res, pager.ErrBusy
-	}
-	e = f.SetLk(mount.RdLck, sharedFirst, sharedFirst+sharedSize-1)
-	_ = f.SetLk(mount.UnLck, pending, pending)
-	if e != nil {
-		return res, pager.ErrBusy
-	}
-	hdr := make([]byte, 100)
-	hn, _ := f.ReadAt(hdr, 0)
-	pageSize := uint32(0)
-	if hn == 100 {
-		pageSize = ref.HeaderPageSize(hdr)
-		res.WALMode = hdr[18] == 2
-	}
-	var shm, wal *mount.File
-	if res.WALMode {
-		// A WAL-mode reader holds a READ lock on the shared-memory file.
-		if shm, _, e = m.OpenOrCreate(owner, db+"-shm"); e != nil {
-			return res, fmt.Errorf("open shm: %w", e)
-		}
-		defer shm.Close()
-		if wal, _, e = m.OpenOrCreate(owner, db+"-wal"); e != nil {
-			return res, fmt.Errorf("open wal: %w", e)
-		}
-		defer wal.Close()
-		slot := uint64(123)
-		if sz, _ := wal.Size(); sz > 0 {
-			slot = 124
-		}
-		if e := shm.SetLk(mount.RdLck, slot, slot); e != nil {
-			return res, pager.ErrBusy
-		}
-	}
-
-	res.Pos = n.Pos(db)
-	if pf, e := m.Open(owner, db+"-pos"); e == nil {
-		buf := make([]byte, 64)
-		k, _ := pf.ReadAt(buf, 0)
-		res.PosFile = strings.TrimSpace(string(buf[:k]))
-		_ = pf.Close()
-	}
-	if res.Image, e = pager.ReadFileImage(f, pageSize); e != nil {
-		return res, e
-	}
-	if res.WALMode {
-		sz, _ := wal.Size()
-		raw := make([]byte, sz)
-		k, _ := wal.ReadAt(raw, 0)
-		scan := ref.WALScan(raw[:k])
-		if scan.HeaderOK && scan.LastCommit > 0 && scan.PageSize == pageSize {
-			res.Image = scan.Overlay(res.Image)
-		}
-		sh := make([]byte, 136)
-		if k, _ := shm.ReadAt(sh, 0); k >= 48 && sh[12] == 1 { // isInit: an all-zero header makes SQLite recover from the log instead
-			res.HaveSHM = true
-			res.SHMMxFrame = binary.LittleEndian.Uint32(sh[16:])
-			res.SHMPageN = binary.LittleEndian.Uint32(sh[20:])
-		}
-	} else if n := ref.HeaderPageN(res.Image.Page(1)); n > 0 && n < res.Image.N() {
-		// between a shrinking commit and SQLite's truncate the file is longer than the database
-		res.Image.Resize(n)
-	}
-	if under != nil {
-		under()
-	}
-	return res, nil
+	return n.Node.ReadDB(n.cl.nextOwner, db, under)
 }
 
 // PosFileOf formats a position the way the -pos file does.
